@@ -88,11 +88,11 @@ func loadEnv() []string {
 func Load(name, dir string, tags string, patterns []string, minPkgs int, tolerate []string, withSSA bool, overlay map[string][]byte) (*Prog, error) {
 	fset := token.NewFileSet()
 	cfg := &packages.Config{
-		Mode:  packages.LoadAllSyntax,
-		Dir:   dir,
-		Fset:  fset,
-		Env:   loadEnv(),
-		Tests: false,
+		Mode:    packages.LoadAllSyntax,
+		Dir:     dir,
+		Fset:    fset,
+		Env:     loadEnv(),
+		Tests:   false,
 		Overlay: overlay,
 	}
 	if tags != "" {
